@@ -25,7 +25,7 @@ CHECKS = [
      TECH + "lock-step refinement against an executable RFC 4271 reference model"),
     ("C02", "exploration", "5 C02",
      "adversarial prefix (C01 alphabet) then a cooperative reference peer; bounded liveness in virtual time (Established within idle_hold + connect + slack, still up on the same connection 3 hold times later) and 'recovery OPEN equals first OPEN'",
-     "liveness is judged only after faults stop; bounds are the property's own; the cooperative peer validates the agent's OPEN like a real router",
+     "liveness is judged only after faults stop; bounds are the property's own; the cooperative peer validates the agent's OPEN like a real router and runs its own hold timer; its behaviour is a deterministic continuation executed by the engine (not part of the recorded, minimisable op list); variants: a dead connection in OpenSent (bound + 240 s), late completion of a pending close, application-handler ENOSPC faults in the prefix",
      TECH + "bounded liveness after faults stop + history check"),
     ("C03", "exploration", "5 C03",
      "configured x proposed hold times from {0,3,4,9,30,90,180,65535}^2 and arrival schedules at gaps just below/at/above H with explicit same-instant orders; timestamp oracle over the recorded history (KEEPALIVE <= H/3 apart, no expiry before H of silence, NOTIFICATION(4) exactly at the deadline then close, H=0: no periodic KEEPALIVE and no expiry, 240 s in OpenSent)",
@@ -65,7 +65,7 @@ CHECKS = [
      TECH + "reference-model (dictionary) refinement over update histories with session drops"),
     ("C20", "fault_enumeration", "5 C20",
      "real DefaultHandler and start-up path on a simulated file system (user buffer / page cache / durable); histories of real protocol events with rotations, clean restarts and crashes armed at file-system call numbers (process kill; power loss keeping any prefix of the un-synced tail; optional loss of a never-synced file); per sweep history EVERY call boundary x kill and EVERY fsync x EVERY byte offset of the tail; audit after every restart and at the end (complete JSON lines, seq +1 across files/restarts, crash fragments stand alone, acknowledged records present, start-up never exits)",
-     "crash model = kill / power loss with prefix-torn tails; disk-full, EIO and clock steps are not verdict inputs (not in the property's quantifier)",
+     "crash model = kill / power loss with prefix-torn tails; also injected: wall-clock steps (-1 day .. +1 h, reactor time base untouched) and storage errors (one flush or fsync fails with ENOSPC/EIO, possibly after a partial write; one more missing record tolerated per injected error, only in runs that also crash)",
      TECH + "crash-point and torn-write enumeration inside seeded histories"),
 ]
 
